@@ -589,7 +589,7 @@ class Interp:
             i = fresh("dim")
             e2 = dict(env)
             self.assign(g.target, i, e2, fr, e)
-            return ("lam", i, "dim", self.ev(e.elt, e2, fr))
+            return ("app", "listcomp", (src[2][0], ("lam", i, "dim", self.ev(e.elt, e2, fr))))
         ax = self.axes_of(src)
         i = fresh(ax[0] if ax else "dim")
         e2 = dict(env)
